@@ -10,11 +10,25 @@ Model: `opRename` (`set_item_name`: `idxFix` + `renameRefs`) and `opMove` (`move
 references are rewritten is decided by `pathSuffix oldPath refText`; the theorems below show that this
 test selects exactly the renamed element's path and the paths below it — in particular NOT a sibling whose
 name merely starts with the same text (`/pkg1` vs `/pkg10`) — and that the rewritten text keeps the suffix.
-Partial: that every rewritten reference resolves to the same element object afterwards, over all histories,
-is checked by the correspondence run (dumps) and by the direct oracle on the real library (target identity
-of every reference before/after each rename/move).
+PROVED for `set_item_name` over ALL histories (`C06_rename_follows_in_every_reachable_state`): in every state reachable from the
+empty world by any guarded history of the larger alphabet `OpX` (the 17 core operations, `set_item_name`, `sort`;
+`Model/Step.lean`, the step function the driver runs), a rename that changes the state maps every reference element of the
+model with a text `p` to the same element with a text `p'` such that (i) if `p` resolved to the element `e` in the path index
+before, `p'` resolves to the SAME element `e` afterwards; (ii) if `p` did not designate the renamed element or something below
+it, `p' = p` ("all other references keep their text"); (iii) otherwise `p'` is the new path followed by the old remainder.
+The step statement `C06_rename_follows` holds in any world with the combined invariant `CInv` (index exact, reverse reference
+map exact — C04/C05); `C06_rename_index` says the index is re-keyed one-to-one (`C06_rename_index_converse`: nothing else
+appears), `C06_rename_frame` that every other model, the id counters and the files are untouched.  The same invariants hold
+again after the rename (`Lemmas/StepX.lean`, `runX_finv`), so the statement composes along histories.
+`C06_rename_needs_exact_referrers`: WITHOUT the exactness of the reverse map (C05) the statement is false — the loop overwrites
+the first content item of whatever the map lists; a concrete world with a garbage map loses the package's SHORT-NAME.
+Partial (named so): moves (`move_element_here`, same model and across models) are outside the proved alphabet; for them the
+identity of every reference target before/after is checked by the correspondence run (dumps) and by the direct oracle on the
+real library.
 -/
 import AutosarVerif.Lemmas.WorldOps
+import AutosarVerif.Lemmas.RenameOpC06
+import AutosarVerif.Lemmas.StepX
 
 namespace AV.C06
 open AV.W
@@ -31,5 +45,56 @@ theorem C06_only_real_descendants (old key s : Bytes) (h : pathSuffix old key = 
 references to "/a" and "/a/x" follow the rename to "/b", the one to "/a1" keeps its key -/
 example : (renameRefs [([47, 97], [1]), ([47, 97, 47, 120], [2]), ([47, 97, 49], [3])] .nil [47, 97] [47, 98]).1
     = [([47, 97, 49], [3]), ([47, 98], [1]), ([47, 98, 47, 120], [2])] := by decide
+
+/-- **C06 for `set_item_name`** in any world with exact index and exact referrer lists: every reference of the model keeps
+designating the same element object; the others keep their text -/
+theorem C06_rename_follows (S : Spec) (V : Env) (vOk : Nat) (hH : IdxHyp S V vOk) (hR : RefWF S) (w : World)
+    (hC : CInv S vOk w) (x : Nat) (nm : Bytes) (k : Nat) (c : List (Hdr × Items)) (hloc : locate w x = some (k, c))
+    (hch : (opRename S V w x nm).1 ≠ w) (h : Hdr) (k0 : Items) (p : Bytes) (ho : Occ h k0 (w.models[k]!).rootItems)
+    (href : S.isRef h.ety.typ = true) (hcd : charData S h k0 = some (.str p)) :
+    ∃ k0' p', Occ h k0' ((opRename S V w x nm).1.models[k]!).rootItems ∧ charData S h k0' = some (.str p') ∧
+      (∀ e, idxGet (w.models[k]!).index p = some e → idxGet ((opRename S V w x nm).1.models[k]!).index p' = some e) ∧
+      (pathSuffix (pathOfChain S c) p = none → p' = p) ∧
+      (∀ s, pathSuffix (pathOfChain S c) p = some s → p' = renNew S c nm ++ s) :=
+  opRename_C06 S V vOk hH hR w hC x nm k c hloc hch h k0 p ho href hcd
+
+/-- the index is re-keyed: every entry moves with its element -/
+theorem C06_rename_index (S : Spec) (V : Env) (vOk : Nat) (hH : IdxHyp S V vOk) (hR : RefWF S) (w : World)
+    (hC : CInv S vOk w) (x : Nat) (nm : Bytes) (k : Nat) (c : List (Hdr × Items)) (hloc : locate w x = some (k, c))
+    (hch : (opRename S V w x nm).1 ≠ w) (q : Bytes) (i : Nat) (hq : idxGet (w.models[k]!).index q = some i) :
+    idxGet ((opRename S V w x nm).1.models[k]!).index (rekey (pathOfChain S c) (renNew S c nm) q) = some i :=
+  opRename_C06_index S V vOk hH hR w hC x nm k c hloc hch q i hq
+theorem C06_rename_index_converse (S : Spec) (V : Env) (vOk : Nat) (hH : IdxHyp S V vOk) (hR : RefWF S) (w : World)
+    (hC : CInv S vOk w) (x : Nat) (nm : Bytes) (k : Nat) (c : List (Hdr × Items)) (hloc : locate w x = some (k, c))
+    (hch : (opRename S V w x nm).1 ≠ w) (q' : Bytes) (i : Nat)
+    (hq : idxGet ((opRename S V w x nm).1.models[k]!).index q' = some i) :
+    ∃ q, idxGet (w.models[k]!).index q = some i ∧ rekey (pathOfChain S c) (renNew S c nm) q = q' :=
+  opRename_C06_index_conv S V vOk hH hR w hC x nm k c hloc hch q' i hq
+
+/-- **over all histories**: the statement holds for a rename issued in ANY state reachable by a guarded history of the larger
+alphabet (core operations, renames, sorts) -/
+theorem C06_rename_follows_in_every_reachable_state (S : Spec) (V : Env) (vOk : Nat) (rootAttrs : List (Nat × CDv))
+    (hH : IdxHyp S V vOk) (hR : RefWF S) (hv32 : vOk &&& 0xFFFFFFFF = vOk) (ops : List OpX)
+    (hops : ∀ op ∈ ops, OpXOk S vOk op) (x : Nat) (nm : Bytes) (k : Nat) (c : List (Hdr × Items))
+    (hloc : locate (runX S V rootAttrs ops) x = some (k, c))
+    (hch : (opRename S V (runX S V rootAttrs ops) x nm).1 ≠ runX S V rootAttrs ops)
+    (h : Hdr) (k0 : Items) (p : Bytes) (ho : Occ h k0 ((runX S V rootAttrs ops).models[k]!).rootItems)
+    (href : S.isRef h.ety.typ = true) (hcd : charData S h k0 = some (.str p)) :
+    ∃ k0' p', Occ h k0' ((opRename S V (runX S V rootAttrs ops) x nm).1.models[k]!).rootItems ∧
+      charData S h k0' = some (.str p') ∧
+      (∀ e, idxGet ((runX S V rootAttrs ops).models[k]!).index p = some e →
+        idxGet ((opRename S V (runX S V rootAttrs ops) x nm).1.models[k]!).index p' = some e) ∧
+      (pathSuffix (pathOfChain S c) p = none → p' = p) ∧
+      (∀ s, pathSuffix (pathOfChain S c) p = some s → p' = renNew S c nm ++ s) :=
+  opRename_C06 S V vOk hH hR _ (runX_finv S V vOk rootAttrs hH hR hv32 ops hops).1 x nm k c hloc hch h k0 p ho href hcd
+
+/-- negation witness: with a reverse map that is not exact the rename destroys the index invariant (C05 is needed for C06) -/
+theorem C06_rename_needs_exact_referrers :
+    ∃ w : World, WInv refSpec 6 w ∧ ¬ WInv refSpec 6 (opRename refSpec nameEnv w 1 [98]).1 := opRename_winv_needs_refs
+
+/-- non-vacuity: the hypotheses of the step statement are met by a concrete world (package "a" referenced by "/a", "/a/x";
+"/a1" untouched) -/
+theorem C06_hypotheses_are_met : ∃ k c, locate renWorld 1 = some (k, c) ∧
+    (opRename refSpec nameEnv renWorld 1 [98]).1 ≠ renWorld ∧ CInv refSpec 6 renWorld := renWorld_hyps
 
 end AV.C06
